@@ -1,5 +1,10 @@
 """Texts of MANIFEST.json per claimed property (kept next to the rules so they stay in step)."""
 CLAIMS = {
+ "C06": {
+  "technique": "static analysis: conditional constant propagation over MIR (exhaustive index tables), def-use plumbing, dominator rules, call-graph reachability",
+  "text": "Extracts from the source, by constant propagation over the exhaustive domain 3 role positions x 4 node indexes x 2 parts, the tables owner(part,pos), role(i,pos), proxy(i), peer(i) of the broker's view builder and the store's index helpers, and checks their mutual consistency (masters = slot owners, replicas own nothing, one master per peer pair on different proxies). takeover_master is evaluated for every (old position, failed index): new position, idempotent early return, and that every part whose owner node changes is re-issued with the bumped epoch (this rule found a genuine defect, repaired by a fix: commit). to_slot_range's same-typed index plumbing, replace_failed_proxy's bookkeeping/ordering, balance_masters' failure guard and the allocation filter (never offers occupied/failed/reported proxies; every allocation entry reaches it) are decided too. Interplay with concurrent migrations over histories is not decided.",
+  "note": "Trusts MIR, extractor, analyses; the chunk layout (4 nodes / 2 proxies / 2 parts) is read from the facts; unknown loops are treated as executing any number of times.",
+ },
  "C04": {
   "technique": "static analysis: effect summaries (who-may-write) + must-pass-through path rule over feasible CFGs + def-use origin of epoch values",
   "text": "For every broker mutator (found by its effect summary, floor 13) and every CFG path (infeasible paths pruned by correlated-flag valuations), a write to served content is versioned: a global-epoch increase lies on every Ok path through the write, a cluster-content write also has a cluster-epoch write whose value derives from the increased global epoch, and no definite content write is followed by an Err exit without versioning. All writers of the global and cluster epochs are enumerated over lib+bins and shown monotone (+1, >-guarded assignment, max(..,g+1)); the epoch served per proxy is traced to cluster/global epoch. This decides the property for all operation sequences because it holds on all paths of every operation; restore of external snapshots is out of scope.",
